@@ -111,6 +111,8 @@ def as_written(case):
         bk = c['opts'].get('burst_kwargs')
         if bk and 'amp_threshes' in bk:
             bk['amp_threshes'] = list(bk['amp_threshes'])
+        if bk and isinstance(bk.get('min_n_cycles'), int):
+            bk['min_n_cycles'] = np.int64(bk['min_n_cycles'])
     return c
 
 
